@@ -232,7 +232,8 @@ func evalC15FS(args []string, withDirs bool) string {
 			return "BAD-CASE"
 		}
 		name := string(unhx(f[0]))
-		if !simpleName.MatchString(name) || name == "sub" {
+		// (a file may live in the subdirectory: its name, as the dictionary texts write it, is then sub/<name>)
+		if !simpleName.MatchString(strings.TrimPrefix(name, "sub/")) || name == "sub" {
 			return "BAD-CASE"
 		}
 		var out [][]byte
@@ -247,7 +248,7 @@ func evalC15FS(args []string, withDirs bool) string {
 		}
 	}
 	root := string(unhx(args[1]))
-	if !simpleName.MatchString(root) {
+	if !simpleName.MatchString(strings.TrimPrefix(root, "sub/")) {
 		return "BAD-CASE"
 	}
 	o := &fsOpener{inner: &dictionary.FileSystemOpener{Root: dir}, dir: dir}
@@ -524,6 +525,31 @@ func genC15(g *Gen, tier string, emit func(op string, args ...string)) {
 			}
 			if ok && len(fs.names) > 0 {
 				emit("walkfs", fs.arg(), hx([]byte(root)), ign)
+				// … once more with one file moved into the subdirectory (every `$INCLUDE` of it re-written to sub/<name>):
+				// names are resolved against the opener's Root for the whole walk, wherever the including file lies
+				if nwalk%12 == 0 {
+					victim := fs.names[(nwalk/12)%len(fs.names)]
+					moved := &dpFS{}
+					for i, n := range fs.names {
+						var lines [][]byte
+						for _, line := range bytes.Split(fs.texts[i], []byte("\n")) {
+							if f := strings.Fields(string(line)); len(f) == 2 && f[0] == "$INCLUDE" && f[1] == victim {
+								k := bytes.LastIndex(line, []byte(victim))
+								line = append(append(append([]byte{}, line[:k]...), "sub/"+victim...), line[k+len(victim):]...)
+							}
+							lines = append(lines, line)
+						}
+						if n == victim {
+							n = "sub/" + n
+						}
+						moved.add(n, bytes.Join(lines, []byte("\n")))
+					}
+					r := root
+					if r == victim {
+						r = "sub/" + r
+					}
+					emit("walkfs", moved.arg(), hx([]byte(r)), ign)
+				}
 				// … and once more with one of the files replaced by a DIRECTORY of that name (opens, cannot be read)
 				if nwalk%8 == 0 {
 					dir := (nwalk / 8) % len(fs.names)
